@@ -165,6 +165,7 @@ func (i *interpreter) sprintf(fr *frame, formatV value, args []value) []value {
 	}
 	var out []value
 	argN := 0
+	reordered := false
 	for k := 0; k < len(format); {
 		c := format[k]
 		if c != '%' {
@@ -178,7 +179,23 @@ func (i *interpreter) sprintf(fr *frame, formatV value, args []value) []value {
 			sp.flags += string(format[k])
 			k++
 		}
+		// explicit argument index "[n]"
+		argIndex := func() {
+			if k < len(format) && format[k] == '[' {
+				end := strings.IndexByte(format[k:], ']')
+				if end > 1 {
+					if n, err := strconv.Atoi(format[k+1 : k+end]); err == nil && n >= 1 && n <= len(args) {
+						argN = n - 1
+						reordered = true
+						k += end + 1
+						return
+					}
+				}
+				panic(pathEnd{kind: "unsupported", msg: "fmt: malformed argument index in " + format})
+			}
+		}
 		nextInt := func() (int, bool) {
+			argIndex()
 			if k < len(format) && format[k] == '*' {
 				k++
 				if argN < len(args) {
@@ -204,6 +221,7 @@ func (i *interpreter) sprintf(fr *frame, formatV value, args []value) []value {
 			sp.prec, sp.hasP = nextInt()
 			sp.hasP = true
 		}
+		argIndex()
 		if k >= len(format) {
 			out = append(out, litBytes("%!(NOVERB)")...)
 			break
@@ -222,7 +240,7 @@ func (i *interpreter) sprintf(fr *frame, formatV value, args []value) []value {
 		argN++
 		out = append(out, i.formatArg(fr, sp, arg, 0)...)
 	}
-	if argN < len(args) {
+	if !reordered && argN < len(args) {
 		out = append(out, litBytes("%!(EXTRA ")...)
 		for k := argN; k < len(args); k++ {
 			if k > argN {
@@ -232,7 +250,7 @@ func (i *interpreter) sprintf(fr *frame, formatV value, args []value) []value {
 			if a.t == nil {
 				out = append(out, litBytes("<nil>")...)
 			} else {
-				out = append(out, litBytes(a.t.String()+"=")...)
+				out = append(out, litBytes(typeStringLikeReflect(a.t)+"=")...)
 				out = append(out, i.formatArg(fr, spec{verb: 'v'}, a, 0)...)
 			}
 		}
@@ -282,7 +300,7 @@ func (i *interpreter) formatArg(fr *frame, sp spec, a iface, depth int) []value 
 		return litBytes("%!" + string(sp.verb) + "(<nil>)")
 	}
 	if sp.verb == 'T' {
-		return litBytes(a.t.String())
+		return litBytes(typeStringLikeReflect(a.t))
 	}
 	if sp.verb == 'p' {
 		return litBytes("0xc000000000")
@@ -503,4 +521,10 @@ func (i *interpreter) concretiseFloat(s sym) value {
 	}
 	bits := i.floatBits(s)
 	return math.Float64frombits(i.concretiseTerm(bits, "float formatted as text"))
+}
+
+// typeStringLikeReflect: reflect.Type.String() qualifies names with the package NAME,
+// go/types with the package path.
+func typeStringLikeReflect(t types.Type) string {
+	return types.TypeString(t, func(p *types.Package) string { return p.Name() })
 }
